@@ -23,6 +23,11 @@ WIRES = {
     "C14": [("C14-SCALE-WIDTH", 'wave2.wide_scale_rule(run, f, "C14-SCALE-WIDTH")')],
     "C15": [("C15-GROW-REFUSAL", 'wave2.grow_refusal_rule(run, f, "C15-GROW-REFUSAL")'),
             ("C15-IDLE-PARK", 'wave2.idle_block_rule(run, f, "C15-IDLE-PARK")')],
+    "C16": [("C16-ERRNO-FRESH", 'wave2_nio.errno_not_stale_rule(run, f, "C16-ERRNO-FRESH")'),
+            ("C16-NO-RAW-ARRAY", 'wave2_nio.no_raw_array_rule(run, f, "C16-NO-RAW-ARRAY")'),
+            ("C16-INDEX-ADVANCES", 'wave2_nio.index_advances_rule(run, f, "C16-INDEX-ADVANCES")')],
+    "C17": [("C17-NO-RAW-ARRAY", 'wave2_nio.no_raw_array_rule(run, f, "C17-NO-RAW-ARRAY")'),
+            ("C17-INDEX-ADVANCES", 'wave2_nio.index_advances_rule(run, f, "C17-INDEX-ADVANCES")')],
     "C20": [("C20-POLL-EVERY-ROUND", 'wave2.poll_every_round_rule(run, f, "C20-POLL-EVERY-ROUND")')],
     "C24": [("C24-FAULT-SIGNALS-UNBLOCKED", 'wave2.fault_signals_unblocked_rule(run, f, "C24-FAULT-SIGNALS-UNBLOCKED")')],
     "C25": [("C25-DELETERS", 'wave2.local_deleters_rule(run, f, "C25-DELETERS")'),
@@ -65,6 +70,8 @@ for pid, wires in sorted(WIRES.items()):
     need_imp = []
     if "wave2." in lines and not re.search(r"^from rules import .*\bwave2\b", s, re.M):
         need_imp.append("wave2")
+    if "wave2_nio." in lines and not re.search(r"^from rules import .*\bwave2_nio\b", s, re.M):
+        need_imp.append("wave2_nio")
     if "coro." in lines and not re.search(r"^from rules import .*\bcoro\b", s, re.M):
         need_imp.append("coro")
     if need_imp:
